@@ -27,21 +27,30 @@ def flagstr(cfg):
 
 
 def expected_config():
-    """sound, except the flags whose defect is recorded as an (unrepaired) finding in known_findings/*.json
-    (entries carrying a "flag" field)"""
+    """sound, except the flags whose defect is recorded as an (unrepaired) finding (entries carrying a "flag"
+    field).  The per-property fragments known_findings/*.json are the authority; the merged KNOWN_FINDINGS.json is
+    only consulted for flags no fragment mentions (it may lag behind the fragments)."""
     cfg = dict(SOUND)
     kd = os.path.join(C.VERIF, 'known_findings')
-    paths = [os.path.join(C.VERIF, 'KNOWN_FINDINGS.json')]
-    if os.path.isdir(kd):
-        paths += [os.path.join(kd, f) for f in sorted(os.listdir(kd)) if f.endswith('.json')]
-    for path in paths:
-        try:
-            data = json.load(open(path))
-        except (FileNotFoundError, ValueError):
-            continue
-        for k in data.get('findings', []):
-            if k.get('kind') == 'finding' and k.get('flag') in cfg:
-                cfg[k['flag']] = False
+    frag_paths = [os.path.join(kd, f) for f in sorted(os.listdir(kd)) if f.endswith('.json')] if os.path.isdir(kd) else []
+
+    def entries(paths):
+        for path in paths:
+            try:
+                data = json.load(open(path))
+            except (FileNotFoundError, ValueError):
+                continue
+            for k in data.get('findings', []):
+                if k.get('flag') in cfg:
+                    yield k
+    mentioned = set()
+    for k in entries(frag_paths):
+        mentioned.add(k['flag'])
+        if k.get('kind') == 'finding':
+            cfg[k['flag']] = False
+    for k in entries([os.path.join(C.VERIF, 'KNOWN_FINDINGS.json')]):
+        if k['flag'] not in mentioned and k.get('kind') == 'finding':
+            cfg[k['flag']] = False
     return cfg
 
 
@@ -512,3 +521,40 @@ def proof_stage(R):
     if not P['ok']:
         P['discharged'] = max(0, min(P['discharged'], P['obligations']) - len(P['theorems']))
     return P
+
+
+def check_in_batches(R, sides, cfg, cid, first_cases, gen_fn, total, batch=40000, **kw):
+    """corpus cases first, then `total` generated cases in batches (bounded memory); gen_fn(k) -> list of k cases.
+    Returns (mismatches (at most 50 kept), number of oracle failures, number of mismatches)"""
+    mism, nfail, nmis = [], 0, 0
+    pending = list(first_cases)
+    done = 0
+    while True:
+        k = min(batch, total - done)
+        if k > 0:
+            pending += gen_fn(k)
+            done += k
+        if not pending:
+            break
+        m, f = check_cases(R, sides, pending, cfg, cid, **kw)
+        nmis += len(m)
+        nfail += len(f)
+        mism += m[:max(0, 50 - len(mism))]
+        pending = []
+        if done >= total:
+            break
+    return mism, nfail, nmis
+
+
+def drop_stale_known(R, cids):
+    """the per-property fragments known_findings/<Cxx>.json are the authority for these properties: an entry they
+    record as "fixed" must not be suppressed by a stale copy in the merged KNOWN_FINDINGS.json"""
+    fixed = set()
+    for cid in cids:
+        try:
+            for k in json.load(open(os.path.join(C.VERIF, 'known_findings', f'{cid}.json'))).get('findings', []):
+                if k.get('kind') == 'fixed':
+                    fixed.add(k['signature'])
+        except (FileNotFoundError, ValueError):
+            pass
+    R.known = [k for k in R.known if k['signature'] not in fixed]
